@@ -192,13 +192,16 @@ IRR_PAIRS = [("radians", None, "degrees", None), ("degrees", None, "radians", No
 IRR_REPS = [("double", "double"), ("float", "float"), ("float", "double"), ("double", "float")]
 IRR_REPS_CMATH = [("int32_t", "double"), ("double", "int32_t"), ("int32_t", "int32_t")]
 RP_EQ = ["int32_t", "double", "float", "int16_t", "int64_t", "uint32_t", "uint8_t"]
+# (integral, float) is the one mixed pair whose <cmath> type (double) is neither operand's type nor their std::common_type
+# (float): it is in the quick tier too
 RP_MIX = [("int16_t", "int32_t"), ("int32_t", "int64_t"), ("float", "double"), ("int32_t", "double"), ("uint16_t", "uint32_t"),
-          ("int16_t", "int64_t"), ("uint32_t", "uint64_t"), ("int32_t", "float"), ("uint8_t", "int32_t"), ("int64_t", "double")]
+          ("int32_t", "float"), ("int16_t", "int64_t"), ("uint32_t", "uint64_t"), ("uint8_t", "int32_t"), ("int64_t", "double"),
+          ("int64_t", "float")]
 
 
 def rep_pairs(quick):
     eq = RP_EQ[:4] if quick else RP_EQ
-    mix = RP_MIX[:5] if quick else RP_MIX
+    mix = RP_MIX[:6] if quick else RP_MIX
     out = [(r, r) for r in eq]
     for a, b in mix:
         out += [(a, b), (b, a)]
